@@ -1616,6 +1616,25 @@ impl Transaction {
         }
 
         //
+        // spent transaction slips must be inside the retention window
+        //
+        // the earliest block this transaction can still enter is the one after the tip.
+        // (a block applies the same rule with its own id, see block.validate(). if the
+        // tip is unknown in the middle of a reorganization this reads 0 and only the
+        // block-level rule applies)
+        //
+        let next_block_id = blockchain.get_latest_block_id() + 1;
+        if !self
+            .spends_only_outputs_created_since(next_block_id.saturating_sub(blockchain.genesis_period))
+        {
+            error!(
+                "ERROR 582040: transaction spends an output that has left the retention window (next block : {}, genesis_period : {})",
+                next_block_id, blockchain.genesis_period
+            );
+            return false;
+        }
+
+        //
         // spent transaction slips must be spendable (in hashmap)
         //
         return if validate_against_utxo {
@@ -1624,6 +1643,23 @@ impl Transaction {
         } else {
             true
         };
+    }
+
+    /// false if a user-originated transaction spends a value-carrying output created before
+    /// block `oldest_spendable_block_id`. outputs leave the retention window when the block
+    /// genesis_period + 1 after theirs sweeps them (rebroadcast by an ATR transaction, or
+    /// collected as a fee if they cannot pay for the rebroadcast) : from that block on only
+    /// the sweeping block's own ATR transactions may name them as inputs.
+    pub fn spends_only_outputs_created_since(&self, oldest_spendable_block_id: u64) -> bool {
+        if self.transaction_type == TransactionType::ATR
+            || self.transaction_type == TransactionType::Fee
+            || self.transaction_type == TransactionType::Issuance
+        {
+            return true;
+        }
+        self.from
+            .iter()
+            .all(|input| input.amount == 0 || input.block_id >= oldest_spendable_block_id)
     }
 
     pub fn validate_against_utxoset(&self, utxoset: &UtxoSet) -> bool {
